@@ -546,6 +546,13 @@ func jsonAlphabet() []val {
 		v("jd:f64:-1e19", "json-number-big", types.JSONDocument{Val: float64(-1e19)}),
 		v("jd:f64:2^64", "json-number-big", types.JSONDocument{Val: float64(1<<63) * 2}),
 		v("jd:f64:1.5", "json-number", types.JSONDocument{Val: float64(1.5)}),
+		// integers around 2^53 that float64 cannot tell apart, and the double they round to (a
+		// comparison that rounds the integer before the exact tie-break equates 2^53 and 2^53+1)
+		v("jd:int64:2^53", "json-number-53", types.JSONDocument{Val: int64(1 << 53)}),
+		v("jd:int64:2^53+1", "json-number-53", types.JSONDocument{Val: int64(1<<53 + 1)}),
+		v("jd:int64:2^53-1", "json-number-53", types.JSONDocument{Val: int64(1<<53 - 1)}),
+		v("jd:f64:2^53", "json-number-53", types.JSONDocument{Val: float64(1 << 53)}),
+		v("jd:uint64:2^53+1", "json-number-53", types.JSONDocument{Val: uint64(1<<53 + 1)}),
 		v("jd:[int64:1]", "json-array", types.JSONDocument{Val: types.JsonArray{int64(1)}}),
 		v("g:int64:1", "go-int", int64(1)),
 		v("g:f64:1.5", "go-float", float64(1.5)),
